@@ -1709,7 +1709,8 @@ fn run_scenario(rt: &tokio::runtime::Runtime, ctl: &Arc<Ctl>, sc: &Scenario, set
 fn gen_scenario(r: &mut Rng, thorough: bool) -> Scenario {
     let n = r.range(2, if thorough { 6 } else { 5 }) as usize;
     let mut actors = vec![];
-    let mutators = [Bash, Bash, Shell, BashQuick, BashTimeout, Write, Write, Patch, Unknown, CkptCreate, CkptRewind, Task, Task, Loop, Loop];
+    // (pty tasks end since /repo 35c2d72: they are generated like pipes tasks)
+    let mutators = [Bash, Bash, Shell, BashQuick, BashTimeout, Write, Write, Patch, Unknown, CkptCreate, CkptRewind, Task, TaskPty, Loop, Loop];
     let readers = [Read, Ls, Grep, Fetch];
     for i in 0..n {
         let mut kind = if i == 0 || r.chance(7, 10) { *r.pick(&mutators) } else { *r.pick(&readers) };
@@ -1853,7 +1854,7 @@ fn corpus() -> Vec<Scenario> {
         // a task inside, a session tries; then the session inside, a task tries
         Scenario { actors: vec![a(Task, false), a(Bash, true), a(Task, false)], gos: vec![0, 0, 0, 1, 1, 0, 0, 1, 2, 2, 1, 1, 1, 1, 1, 2, 2, 2], seed: 3 },
         // checkpoint create / rewind against a shell alias and a pty task
-        Scenario { actors: vec![a(Shell, true), a(CkptCreate, true), a(CkptRewind, false), a(Task, false)], gos: vec![0, 0, 0, 1, 1, 2, 2, 3, 3, 0, 0, 0, 0, 0], seed: 4 },
+        Scenario { actors: vec![a(Shell, true), a(CkptCreate, true), a(CkptRewind, false), a(TaskPty, false)], gos: vec![0, 0, 0, 1, 1, 2, 2, 3, 3, 0, 0, 0, 0, 0], seed: 4 },
         // provider-driven sessions (agent-loop call site) against a blocked shell
         Scenario { actors: vec![lp(&[Write, Read, BashQuick], true), a(Bash, true), lp(&[Ls, Patch], true)], gos: vec![], seed: 6 },
         Scenario { actors: vec![lp(&[Bash, Write], true), lp(&[Write, Grep, Write], true), a(Task, false)], gos: vec![], seed: 7 },
